@@ -6,6 +6,8 @@
     loader table, failing and cyclic loaders included; Validate returns Ok or Err whenever the
     specification defines a verdict (resolved environment, recursion through
     instance-descending keywords within the fuel).
+    ForType (the model of For) has no panicking branch and returns for every type nested less
+    deeply than its budget.
     The remaining entry points and the malformed / adversarial inputs (arbitrary bytes, Schema
     graphs with nil, shared and cyclic pointers, failing loaders, odd Go values, recursive
     types) are decided by the correspondence families: every family's observation records
@@ -13,7 +15,7 @@
     "every call returns".  gen/ObPanics.v accounts for every explicit panic/assert site of
     the sources. *)
 From Coq Require Import List NArith ZArith QArith Bool.
-From JS Require Import Str Lit Json Res GoValue Hash Schema CodecBase Codec UnmarshalTotal Env Ann Validate Spec Refine Corollaries Defaults Uri Resolve ResolveTotal.
+From JS Require Import Str Lit Json Res GoValue Hash Schema CodecBase Codec UnmarshalTotal Env Ann Validate Spec Refine Corollaries Defaults Uri Resolve ResolveTotal GoType Infer InferTotal.
 Import ListNotations.
 
 Theorem C10_validate_returns : forall re_match hash n e inst b,
@@ -72,3 +74,10 @@ Example C10_resolve_cycle_example :
   wfsb a = true /\ wfsb b = true /\ wfsb c = true /\
   match JS.res.Resolve.Resolve (fun _ => true) 3 a [] ld with Ok (_, calls) => length calls = 2%nat | _ => False end.
 Proof. vm_compute. repeat split. Qed.
+
+(** For / ForType: a schema, nothing (IgnoreInvalidTypes) or an error - for every type nested
+    less than 64 deep (the model's recursion budget; the package recurses on the finite type) *)
+Theorem C10_fortype_returns : forall o t,
+  (gdepth t < 64)%nat -> (exists r, ForType o t = Ok r) \/ ForType o t = Err.
+Proof. exact ForType_returns. Qed.
+Print Assumptions C10_fortype_returns.
